@@ -279,7 +279,10 @@ fn seek(&mut self, pos: SeekFrom) -> (r: Result<u64, IoError>)
 
                 assert(i64::MIN <= (self.end as i64) + end <= i64::MAX); 
                 let new_pos = (self.end as i64) + end;
-                match self.file.seek(SeekFrom::Start(new_pos.max(self.start as i64) as u64)) {
+                match self
+                    .file
+                    .seek(SeekFrom::Start(new_pos.max(self.start as i64) as u64))
+                {
                     Ok(new_pos) => {
 
                         assert(self.start <= new_pos && new_pos <= self.end); 
